@@ -9,7 +9,7 @@ from . import theory
 from .core import Unsupported
 from .interp import MODELS
 from .models_py import WITH_MODELS
-from .values import Opaque
+from .values import Opaque, zbool as zb
 
 
 class CtxMgr:
@@ -35,6 +35,26 @@ def with_handler(I, cm, item, node, frame):
         if item.optional_vars is not None:
             I.assign(item.optional_vars, cm.value, frame)
         I.exec_body(node.body, frame)
+        return None
+    from .values import AbsObj, Obj
+    from .core import RaiseSig
+
+    if isinstance(cm, (Obj, AbsObj)):
+        # the context-manager protocol on a real class: __enter__ / __exit__ are executed
+        entered = I.call(I.getattr(cm, "__enter__", frame), [], {}, frame)
+        if item.optional_vars is not None:
+            I.assign(item.optional_vars, entered, frame)
+        try:
+            I.exec_body(node.body, frame)
+        except RaiseSig as sig:
+            swallow = I.call(I.getattr(cm, "__exit__", frame), [sig.exc_class, Opaque("exc"), Opaque("tb")], {}, frame)
+            t = I.truth(swallow)
+            if isinstance(t, bool) and not t or swallow is None:
+                raise
+            if I.path.branch(zb(t), "exit-swallows"):
+                return None
+            raise
+        I.call(I.getattr(cm, "__exit__", frame), [None, None, None], {}, frame)
         return None
     if isinstance(cm, Opaque) and I.lenient:
         if item.optional_vars is not None:
